@@ -23,6 +23,7 @@ func runC08Gaps2(c *eng.Ctx) {
 	c08g2Caps(c, "C08.7")
 	raftListRecordsKept(c, "C08.2")
 	c08g2Registered(c)
+	c08g2TrackPairing(c)
 	c08g2CacheOwner(c)
 	cacheLruUnderKeyLock(c, "C08.5")
 	c09g2TrackerBookkeeping(c, "C08.7")
@@ -863,4 +864,157 @@ func c08g2Ident(v ssa.Value) string {
 		v = os[0].Val
 	}
 	return strings.ReplaceAll(eng.ExprDeep(v), "^", "")
+}
+
+// c08g2TrackPairing (C08.7, R2/R3 "acquire and release agree"): the tracker
+// counts open WRITE transactions per start index; trim bounds are computed
+// from that count. A transaction is registered (trackTransaction) exactly when
+// it is writable, so it must be released (completeTransaction) exactly when it
+// is writable - by the same predicate over the same transaction: a read-only
+// transaction releasing an index it never registered removes a sibling write
+// transaction begun at that index from the count, the bound rises and the
+// records that sibling must be checked against are trimmed. Every finish of a
+// live writable transaction releases, and no path releases twice.
+func c08g2TrackPairing(c *eng.Ctx) {
+	fv := c.P.Field("raft.RaftTransaction.writable")
+	ctor := c.Fn("raft.(*RaftBackend).newTransaction")
+	if fv == nil {
+		c.Unresolved("raft.RaftTransaction.writable")
+		return
+	}
+	if ctor == nil {
+		return
+	}
+	// the constructor's parameter that becomes the transaction's writable flag
+	var wparam *ssa.Parameter
+	for _, w := range c.P.FieldWriters(fv) {
+		if w.Fn != ctor {
+			continue
+		}
+		for _, o := range nfOrigins(w.Store.Val, nil) {
+			if p, ok := o.Val.(*ssa.Parameter); ok && p.Parent() == ctor {
+				wparam = p
+			}
+		}
+	}
+	isWritable := func(v ssa.Value) bool {
+		if ld, ok := v.(*ssa.UnOp); ok && ld.Op == token.MUL {
+			if fa, isFa := ld.X.(*ssa.FieldAddr); isFa && eng.FieldVar(fa) == fv {
+				return true
+			}
+		}
+		if wparam == nil {
+			return false
+		}
+		os := nfOrigins(v, nil)
+		if len(os) == 0 {
+			return false
+		}
+		for _, o := range os {
+			if o.Val != ssa.Value(wparam) {
+				return false
+			}
+		}
+		return true
+	}
+	writableEdges := func(f *ssa.Function, want bool) []eng.Edge {
+		var out []eng.Edge
+		for _, b := range f.Blocks {
+			if ifi := eng.IfOf(b); ifi != nil {
+				if v := eng.Normalize(ifi.Cond).Val; isWritable(v) {
+					out = append(out, eng.BoolEdges(v, want)...)
+				}
+			}
+		}
+		return out
+	}
+	sitesOf := func(method string) map[*ssa.Function][]ssa.Instruction {
+		out := map[*ssa.Function][]ssa.Instruction{}
+		for _, f := range c.P.Funcs {
+			if !eng.InPkg(f, "raft") {
+				continue
+			}
+			for _, ci := range nfAllCalls(f) {
+				if nfCallOf(ci).Name == "raft.(*fsmTxnCommitIndexTracker)."+method {
+					out[f] = append(out[f], ci)
+				}
+			}
+		}
+		return out
+	}
+	sorted := func(m map[*ssa.Function][]ssa.Instruction) []*ssa.Function {
+		var fs []*ssa.Function
+		for f := range m {
+			fs = append(fs, f)
+		}
+		sort.Slice(fs, func(i, j int) bool { return fs[i].String() < fs[j].String() })
+		return fs
+	}
+	tracks, releases := sitesOf("trackTransaction"), sitesOf("completeTransaction")
+	nT, nR := 0, 0
+	c.Clause("R2", "C08.7")
+	for _, pr := range []struct {
+		m    map[*ssa.Function][]ssa.Instruction
+		what string
+		n    *int
+	}{{tracks, "registered", &nT}, {releases, "released", &nR}} {
+		for _, f := range sorted(pr.m) {
+			*pr.n += len(pr.m[f])
+			c.Cut(f, "start index "+pr.what+" with the tracker", pr.m[f], eng.Guard{Desc: "[writable flag of the same transaction]=true", Edges: writableEdges(f, true)}, nil)
+		}
+	}
+	c.Floor(nil, "trackTransaction sites", nT, 1)
+	c.Floor(nil, "completeTransaction sites", nR, 3)
+	// no path releases twice
+	c.Clause("R3", "C08.7")
+	for _, f := range sorted(releases) {
+		rs := releases[f]
+		twice := false
+		for _, r := range rs {
+			if h := eng.Reach(eng.Query{Fn: f, StartAfter: r, Target: eng.IsTarget(rs)}); h != nil {
+				twice = true
+				c.Violation(f, "start index released once", h.Instr.Pos(), "completeTransaction can run twice on one path: the second call removes a sibling transaction begun at the same index from the count", h.Witness)
+			}
+		}
+		if !twice {
+			c.OK(f, "start index released once", rs[0].Pos(), "no path from one completeTransaction to another")
+		}
+	}
+	// every finish of a live writable transaction releases
+	for _, m := range []string{"Commit", "Rollback"} {
+		f := c.Fn("raft.(*RaftTransaction)." + m)
+		if f == nil {
+			continue
+		}
+		c.Clause("R4", "C08.7")
+		// a release: a direct call, or arming a deferred literal that releases on every path on which the flag is true
+		arms := append([]ssa.Instruction{}, releases[f]...)
+		direct := len(arms)
+		for _, in := range eng.Instrs(f, func(in ssa.Instruction) bool { _, ok := in.(*ssa.Defer); return ok }) {
+			g, _ := nfFuncValue(in.(*ssa.Defer).Call.Value)
+			if g == nil || len(releases[g]) == 0 {
+				continue
+			}
+			if eng.Reach(eng.Query{Fn: g, Barriers: releases[g], Blocked: writableEdges(g, false), Target: nfIsNormalReturn}) == nil {
+				arms = append(arms, in)
+			}
+		}
+		site := m + " of a live writable transaction releases its start index"
+		live := eng.CondEdges(f, `^t\.haveFinishedTx$`, false)
+		if len(live) == 0 || !c.Floor(f, "release of the start index (direct or deferred)", len(arms), 1) {
+			if len(live) == 0 {
+				c.Undecided(f, site, f.Pos(), "no test of the finished flag found: the rule cannot be evaluated")
+			}
+			continue
+		}
+		if direct > 0 && len(arms) > direct {
+			c.Violation(f, site, arms[0].Pos(), m+" releases the start index both directly and in a deferred function literal", nil)
+			continue
+		}
+		if h := eng.Reach(eng.Query{Fn: f, StartEdges: live, Barriers: arms, Blocked: writableEdges(f, false), Target: nfIsNormalReturn}); h != nil {
+			c.Violation(f, site, h.Instr.Pos(), m+" of a live writable transaction can return without completeTransaction: its start index stays in the count and the record is never trimmed past it", h.Witness)
+		} else {
+			c.OK(f, site, arms[0].Pos(), "every return behind the finished check passes the release (or arms the deferred literal that performs it)")
+		}
+	}
 }
